@@ -132,3 +132,9 @@ Definition spec_elf_hist (phs : list phdr) (h : list eop) : list eans := spec_er
 
 (* the address clause of the property, read off a history: every complete lookup answers addr_map *)
 Definition addr_items (phs : list phdr) (start size : Z) : list item := map (fun o => [o]) (addr_map phs start size).
+
+(* ================================================================== sparse program header tables *)
+(* a table given as runs (count, header): count copies of the header in a row.  Used to describe
+   tables with 0xffff and more entries (PN_XNUM) without listing them *)
+Definition expand_runs (runs : list (Z * phdr)) : list phdr :=
+  concat (map (fun r => repeat (snd r) (Z.to_nat (fst r))) runs).
